@@ -103,7 +103,7 @@ def make_problem(inst, solver=None, base_mixins=(), overrides=None):
     dae = inst.get("dae", {})
     ext = inst.get("extra", {})
 
-    class SynthProblem(*base_mixins, CollocatedIntegratedOptimizationProblem):
+    class SynthBase(CollocatedIntegratedOptimizationProblem):
         def __init__(self, **kw):
             sym = {}
             for v in states + algs + ctrls:
@@ -241,6 +241,8 @@ def make_problem(inst, solver=None, base_mixins=(), overrides=None):
                     s = self.state(name) if at is None else self.state_at(name, at, m)
                 elif v["kind"] == "path":
                     s = self._path_syms[[w["name"] for w in paths].index(name)][comp]
+                elif at is None:
+                    s = self._extra_syms[[w["name"] for w in extras].index(name)][comp]
                 else:
                     s = self.extra_variable(name, m)[comp]
                 e = e + coef * s
@@ -276,6 +278,10 @@ def make_problem(inst, solver=None, base_mixins=(), overrides=None):
             if solver is not None:
                 o["casadi_solver"] = solver
             return o
+
+    # mixins (e.g. GoalProgrammingMixin) sit above the synthetic base so that their overrides of
+    # path_variables / bounds / seed / ... chain to it through super()
+    SynthProblem = type("SynthProblem", tuple(base_mixins) + (SynthBase,), {})
 
     if overrides:
         SynthProblem = type("SynthProblemX", (SynthProblem,), overrides)
